@@ -927,6 +927,11 @@ func sumBits(n int, xs []uint64) (acc uint64) {
 	return
 }
 
+// CREDFORM control: a raw input value reduced by one conditional subtraction
+func credRaw(c int64, t uint64) uint64 {
+	return ring.CRed(uint64(c), t)
+}
+
 // INDEG control: the first two components of the input, whatever its degree
 func (e fixEvaluator) SumTwo(ctIn, opOut *rlwe.Ciphertext) {
 	e.r.Add(ctIn.Value[0], ctIn.Value[1], opOut.Value[0])
